@@ -321,6 +321,12 @@ func exploreMode(t *testing.T, spec *Spec, res *WorkerResult) {
 					res.KnownDetail = map[string]string{}
 				}
 				k := "survey:" + o.Violation.Oracle + "|" + o.Violation.Key
+				if res.KnownHits[k] == 0 {
+					rep := &Replay{Property: spec.Property, World: spec.World, Seed: seed, RunSeed: runSeed, Violation: o.Violation, Plan: plan, Log: o.Log}
+					b, _ := json.MarshalIndent(rep, "", " ")
+					os.MkdirAll("/verif/replays", 0o755)
+					os.WriteFile(fmt.Sprintf("/verif/replays/survey-%s-%s.json", spec.Property, sigHash(k)), b, 0o644)
+				}
 				res.KnownHits[k]++
 				res.KnownDetail[k] = o.Violation.Detail
 				continue
